@@ -115,10 +115,17 @@ def r1(ctx: Ctx):
     problem = 'the miss path does not evaluate once and store once'
   else:
     v = evals[0].ast.targets[0].id
-    if unparse(stores[0].ast.value) != v or unparse(stores[0].ast.targets[0].slice) != x:
+    # plain copies of the evaluated result (`result = value`) name the same object
+    same = {v}
+    for _ in range(2):
+      for nd_ in body:
+        if isinstance(nd_.ast, ast.Assign) and len(nd_.ast.targets) == 1 and isinstance(nd_.ast.targets[0], ast.Name) \
+            and isinstance(nd_.ast.value, ast.Name) and nd_.ast.value.id in same:
+          same.add(nd_.ast.targets[0].id)
+    if unparse(stores[0].ast.value) not in same or unparse(stores[0].ast.targets[0].slice) != x:
       problem = 'the stored object is not the freshly evaluated result under the same key'
     rr = [n for n in g.reachable([stores[0]], edge_ok=cfgm.only_normal) if isinstance(n.ast, ast.Return)]
-    if not rr or any(unparse(n.ast.value) != v for n in rr):
+    if not rr or any(unparse(n.ast.value) not in same for n in rr):
       problem = problem or 'the miss path does not return the object it stored'
     c = isfn[0]
     reach_not_fn = g.reachable([s for s, lab in c.succ if lab == 'false'], edge_ok=cfgm.only_normal, include_src=True)
@@ -1035,6 +1042,8 @@ from mlmverif.selfcheck import B, OK  # noqa: E402
 _L = 'chainables/lazy_fns.py'
 _F = 'utils/func_utils.py'
 VARIANTS = [
+    OK('miss-stored-through-a-named-value', 'chainables/lazy_fns.py',
+       "            result = fn(x)\n            lazy_obj_cache[x] = result\n            return result", "            value = fn(x)\n            result = value\n            lazy_obj_cache[x] = result\n            return result"),
     B('none-results-not-cached', 'chainables/lazy_fns.py',
       "            result = fn(x)\n            lazy_obj_cache[x] = result\n            return result", "            result = fn(x)\n            if result is not None:\n              lazy_obj_cache[x] = result\n            return result", 'R-C17-18'),
     B('traced-callables-compared-by-identity', 'chainables/lazy_fns.py',
